@@ -291,7 +291,21 @@ class World(object):
             rel = self.pick(d, s["fi"])
             if rel is None:
                 return None
-            p = self.full(d, nb(s["name"]))
+            name = nb(s["name"])
+            kind = "hardlink"
+            if s.get("relink"):
+                sl = []
+                for root, dirs, names in os.walk(self.ddir(d)):
+                    for n in sorted(dirs + names):
+                        q = os.path.join(root, n)
+                        if os.path.islink(q):
+                            sl.append(os.path.relpath(q, self.ddir(d)))
+                    dirs.sort()
+                if sl:
+                    name = sl[s.get("li", 0) % len(sl)]
+                    os.unlink(self.full(d, name))
+                    kind = "relink"
+            p = self.full(d, name)
             if os.path.lexists(p):
                 return None
             try:
@@ -299,8 +313,8 @@ class World(object):
                 os.link(self.full(d, rel), p)
             except (FileExistsError, NotADirectoryError):
                 return None
-            self.store.put(self.dname(d), nb(s["name"]), self.read_file(d, rel), self.mtime_ns(d, rel))
-            ev = ("hardlink", d, rel, nb(s["name"]))
+            self.store.put(self.dname(d), name, self.read_file(d, rel), self.mtime_ns(d, rel))
+            ev = (kind, d, rel, name)
         elif op == "mkdir":
             p = self.full(d, nb(s["name"]))
             try:
